@@ -406,7 +406,8 @@ def gen_case(seed, tier, idx):
 
 def gen_collision(rnd, idx):
     """Distinct, mutually non-conflicting names whose '__'-joins coincide, or a register called "mux"
-    (findings E1 = F11-F13, fixed in /repo by 6ea0aed / a4c349c: the later submodule is anonymous)."""
+    (findings E1 = F11-F13, fixed in /repo by a4c349c: a colliding field is an anonymous submodule, and by
+    6ea0aed + 823f054: a colliding register gets a numeric suffix)."""
     f = ["f", {"kind": "RW", "shape": {"t": "u", "w": 2}, "init": None}]
     v = rnd.randrange(2) if idx == 1 else 2 + rnd.randrange(3)
     if v == 0:
@@ -925,6 +926,7 @@ def run_impl(case):
         return o
     o["log"] = getattr(b, "log", [])
     o["info"] = {k: v for k, v in b.info.items() if k == "joined"}
+    o["info"]["missing"] = []
     ports = ports_of(b)
     snap0 = snapshot(b)
     texts = []
@@ -948,6 +950,14 @@ def run_impl(case):
                 per.append(mux_state(b, frag))
             elif kind in ("csrbridge", "register") and k == 0:
                 o["info"]["subnames"] = [nm for _, nm, *_ in frag.subfragments]
+                # every register of the map (and the multiplexer) / every field must itself be a submodule
+                origins = {id(sub.origins[0]) for sub, *_ in frag.subfragments if getattr(sub, "origins", None)}
+                if kind == "csrbridge":
+                    want = [("multiplexer", b.dut._mux)] + [("register " + "/".join(map(str, n)), r)
+                                                             for r, n, _ in b.dut.bus.memory_map.resources()]
+                else:
+                    want = [("field " + "/".join(map(str, p)), f) for p, f in b.dut]
+                o["info"]["missing"] = [nm for nm, obj in want if id(obj) not in origins]
         except _Timeout:
             rec["exc"] = ["Timeout", f"elaboration exceeded {LIMIT_S} s"]
             o["timeout"] = f"elaboration {k + 1}"
@@ -996,7 +1006,8 @@ def cmp_accepted(kind, cfg, b, o, per):
     if kind == "csrdec":
         return [cls, [r[:1] for r in b.res], ok]
     if kind in ("csrbridge", "register"):
-        return [cls, 0, [[-1] if nm is None else [ord(c) for c in nm] for nm in o["info"].get("subnames", [])] if ok else -1]
+        return [cls, 0, [[-1] if nm is None else [ord(c) for c in nm] for nm in o["info"].get("subnames", [])] if ok else -1,
+                len(o["info"].get("missing", []))]
     if kind == "wbdec":
         return [cls, [0 if r[0] == "ok" else 2 for r in b.results], ok]
     return [cls, 0]
@@ -1103,6 +1114,9 @@ def oracle(case, o):
                 key = "submodule-name-collision"
             out.append(("C19", f"elaboration {k + 1}",
                         f"accepted {kind} raised {nm} in elaboration {k + 1} ({rec.get('stage', 'elaborate')}): {msg}", key))
+    if o["info"].get("missing"):
+        out.append(("C19", "elaboration 1", f"accepted {kind} elaborated WITHOUT its {o['info']['missing'][0]} "
+                                            f"(not the origin of any submodule of the design)"))
     if "rtlil_diff" in o:
         k, j, x, y = o["rtlil_diff"]
         out.append(("C19", f"elaboration {k}", f"RTLIL of elaboration {k} differs from the first at line {j}: {x!r} vs {y!r}"))
